@@ -1,6 +1,7 @@
 package main
 
 import (
+	"fmt"
 	"os"
 	"runtime"
 	"runtime/debug"
@@ -234,6 +235,9 @@ func runCase(c *Case) *Result {
 			if strings.Contains(want[t][i], "!sev=") {
 				res.ErrOps++
 			}
+			if dumpOutcomes {
+				fmt.Fprintf(os.Stderr, "OUTCOME t%d op%d %s\n", t, i, got[t][i])
+			}
 			if want[t][i] != got[t][i] && res.Verdict == "ok" {
 				res.Verdict = "mismatch"
 				res.Task, res.Op = t, i
@@ -262,6 +266,10 @@ func runCase(c *Case) *Result {
 	}
 	return res
 }
+
+// dumpOutcomes (C17_DUMP=1) prints every op outcome of the concurrent run to
+// stderr: a debugging aid for looking at what new ops return.
+var dumpOutcomes = os.Getenv("C17_DUMP") != ""
 
 // Progress, if set, is called now and then during a long search inside one
 // case, so that the orchestrator's watchdog sees the worker is alive.
